@@ -1,5 +1,6 @@
 import PoolModel.Generated.Consts
 import PoolModel.Generated.BatchFacts
+import PoolModel.Float64
 /-!
 # Executable model of the trader-side batch verification (shared by C01, C02, C03)
 
@@ -177,21 +178,21 @@ def Err.name : Err → String
 /-! ## `order/batch.go`: batch version predicates -/
 
 /-- `bv & LinearVersionEnd` -/
-def linearPart (bv : Nat) : Nat := bv &&& Pool.Gen.linearVersionEnd
+def linearPart (bv : Nat) : Nat := bv &&& Pool.Gen.Batch.linearVersionEnd
 
 /-- `BatchVersion.SupportsAccountExtension` -/
-def supportsAccountExtension (bv : Nat) : Bool := linearPart bv ≥ Pool.Gen.extendAccountBatchVersion
+def supportsAccountExtension (bv : Nat) : Bool := linearPart bv ≥ Pool.Gen.Batch.extendAccountBatchVersion
 
 /-- `BatchVersion.SupportsAccountTaprootUpgrade` -/
-def supportsAccountTaprootUpgrade (bv : Nat) : Bool := linearPart bv ≥ Pool.Gen.upgradeAccountTaprootBatchVersion
+def supportsAccountTaprootUpgrade (bv : Nat) : Bool := linearPart bv ≥ Pool.Gen.Batch.upgradeAccountTaprootBatchVersion
 
 /-! ## `order/supplyunit.go`, `terms/fees.go`, `order/tradingfees.go` -/
 
 /-- `SupplyUnit.ToSatoshis`: `btcutil.Amount(uint64(s) * uint64(BaseSupplyUnit))` -/
-def toSatoshis (units : Nat) : Int := w64 (u64 (units * Pool.Gen.baseSupplyUnit))
+def toSatoshis (units : Nat) : Int := w64 (u64 (units * Pool.Gen.Batch.baseSupplyUnit))
 
 /-- `LinearFeeSchedule.ExecutionFee`: `amt * s.feeRate / 1_000_000` (int64, truncated division) -/
-def scheduleExecutionFee (execRate amt : Int) : Int := Int.tdiv (w64 (amt * execRate)) Pool.Gen.feeRatePartsPerMillion
+def scheduleExecutionFee (execRate amt : Int) : Int := Int.tdiv (w64 (amt * execRate)) Pool.Gen.Batch.feeRatePartsPerMillion
 
 /-- `executionFee`: `schedule.BaseFee() + schedule.ExecutionFee(amount)` -/
 def executionFee (execBase execRate amt : Int) : Int := w64 (execBase + scheduleExecutionFee execRate amt)
@@ -212,14 +213,14 @@ def takerDelta (env : Env) (execBase execRate : Int) (price : Nat) (baseAmt take
 
 /-- `EstimateTraderFee` -/
 def estimateTraderFee (numTraderChans : Nat) (feeRate : Int) (accountVersion : Nat) : Int :=
-  let weightEstimate : Int := ((Pool.Gen.p2wshOutputSize + Pool.Gen.inputSize : Nat) : Int)
-  let chanOutputSize : Nat := u32 Pool.Gen.p2wshOutputSize
+  let weightEstimate : Int := ((Pool.Gen.Batch.p2wshOutputSize + Pool.Gen.Batch.inputSize : Nat) : Int)
+  let chanOutputSize : Nat := u32 Pool.Gen.Batch.p2wshOutputSize
   let weightEstimate := w64 (weightEstimate + Int.tdiv ((u32 (chanOutputSize * numTraderChans + 1) : Nat) : Int) 2)
-  let weightEstimate := w64 (weightEstimate * (Pool.Gen.witnessScaleFactor : Nat))
+  let weightEstimate := w64 (weightEstimate * (Pool.Gen.Batch.witnessScaleFactor : Nat))
   let weightEstimate :=
-    if Pool.Gen.taprootWitnessVersions.contains accountVersion then
-      w64 (weightEstimate + (Pool.Gen.taprootMultiSigWitnessSize : Nat))
-    else w64 (weightEstimate + (Pool.Gen.multiSigWitnessSize : Nat))
+    if Pool.Gen.Batch.taprootWitnessVersions.contains accountVersion then
+      w64 (weightEstimate + (Pool.Gen.Batch.taprootMultiSigWitnessSize : Nat))
+    else w64 (weightEstimate + (Pool.Gen.Batch.multiSigWitnessSize : Nat))
   -- chainfee.SatPerKWeight.FeeForWeight: btcutil.Amount(s) * btcutil.Amount(wu) / 1000
   Int.tdiv (w64 (feeRate * weightEstimate)) 1000
 
@@ -227,9 +228,9 @@ def estimateTraderFee (numTraderChans : Nat) (feeRate : Int) (accountVersion : N
 
 /-- `account.Version.ScriptVersion` -/
 def scriptVersion (v : Nat) : Nat :=
-  match Pool.Gen.scriptVersionTable.lookup v with
+  match Pool.Gen.Batch.scriptVersionTable.lookup v with
   | some sv => sv
-  | none => Pool.Gen.scriptVersionDefault
+  | none => Pool.Gen.Batch.scriptVersionDefault
 
 /-! ## `order/batch_verifier.go`: `DetermineCommitmentType`, then `poolscript.FundingOutput`'s switch:
 is the funding output a MuSig2 taproot output? -/
@@ -237,14 +238,14 @@ is the funding output a MuSig2 taproot output? -/
 /-- the commitment type name chosen by `DetermineCommitmentType` (first matching case of the regenerated table) -/
 def determineCommitmentType (oursCt theirsCt : Nat) : String :=
   let rec go : List (String × Nat × String) → String
-    | [] => Pool.Gen.commitDefault
+    | [] => Pool.Gen.Batch.commitDefault
     | (op, ct, res) :: rest =>
       if (op == "or" && (oursCt == ct || theirsCt == ct)) || (op == "and" && (oursCt == ct && theirsCt == ct))
       then res else go rest
-  go Pool.Gen.commitCases
+  go Pool.Gen.Batch.commitCases
 
 /-- `FundingOutput`: `case lnrpc.CommitmentType_SIMPLE_TAPROOT` → taproot, `default` → p2wsh -/
-def fundingIsTaproot (commit : String) : Bool := Pool.Gen.taprootFundingCommitTypes.contains commit
+def fundingIsTaproot (commit : String) : Bool := Pool.Gen.Batch.taprootFundingCommitTypes.contains commit
 
 /-! ## `order/batch.go`: `ChannelOutput` -/
 
@@ -293,7 +294,7 @@ def validateMatchedOrder (env : Env) (b : Batch) (o : Ours) (t : Their) (clearin
     else if o.rate > t.rate then .error .matchPrice
     else
       let makerAmt := toSatoshis t.unitsFilled
-      let premiumAmt := if o.auctionType == Pool.Gen.btcOutboundLiquidity then w64 (makerAmt + t.selfChanBalance) else makerAmt
+      let premiumAmt := if o.auctionType == Pool.Gen.Batch.btcOutboundLiquidity then w64 (makerAmt + t.selfChanBalance) else makerAmt
       .ok (makerDelta env b.execBase b.execRate clearingPrice makerAmt premiumAmt t.duration)
   else
     -- ours : *Bid, other : *Ask
@@ -302,18 +303,18 @@ def validateMatchedOrder (env : Env) (b : Batch) (o : Ours) (t : Their) (clearin
     else
       let takerAmt := o.selfChanBalance
       let premiumAmt := toSatoshis t.unitsFilled
-      let premiumAmt := if o.auctionType == Pool.Gen.btcOutboundLiquidity then w64 (premiumAmt + takerAmt) else premiumAmt
+      let premiumAmt := if o.auctionType == Pool.Gen.Batch.btcOutboundLiquidity then w64 (premiumAmt + takerAmt) else premiumAmt
       .ok (takerDelta env b.execBase b.execRate clearingPrice premiumAmt takerAmt o.duration)
 
 /-! ## `order/batch.go`: `AccountDiff.validateEndingState` -/
 
 def validateEndingState (env : Env) (txOuts : List TxOut) (acct : Acct) (d : Diff) : Except Err Unit :=
   if d.endingBalance < env.minNoDust then
-    if !Pool.Gen.dustEndingStates.contains d.endingState then .error .diffState
+    if !Pool.Gen.Batch.dustEndingStates.contains d.endingState then .error .diffState
     else if d.outpointIndex ≥ 0 then .error .diffIndexDust
     else .ok ()
   else
-    if d.endingState != Pool.Gen.recreatedEndingState then .error .diffState
+    if d.endingState != Pool.Gen.Batch.recreatedEndingState then .error .diffState
     else if d.outpointIndex < 0 then .error .diffIndexNeg
     else if d.outpointIndex ≥ i32 txOuts.length then .error .diffIndexOob
     else match txOuts[d.outpointIndex.toNat]? with
@@ -375,7 +376,7 @@ def orderChecks (o : Ours) (cp : Nat) (unitsFilled : Nat) : Except Err Unit :=
   if !o.isAsk && o.rate < cp then .error .clearingBid
   else if o.isAsk && o.rate > cp then .error .clearingAsk
   else if unitsFilled > o.unitsUnfulfilled then .error .overfill
-  else if o.auctionType != Pool.Gen.btcOutboundLiquidity && unitsFilled < o.minUnitsMatch then .error .underfill
+  else if o.auctionType != Pool.Gen.Batch.btcOutboundLiquidity && unitsFilled < o.minUnitsMatch then .error .underfill
   else .ok ()
 
 /-- one iteration of `for nonce, theirOrders := range batch.MatchedOrders` -/
@@ -421,7 +422,7 @@ def Rules.fixed : Rules := ⟨true, true, true⟩
 def Rules.pinned : Rules := ⟨false, false, false⟩
 
 /-- `account.ValidateVersion` -/
-def validateVersion (v : Nat) : Bool := Pool.Gen.validAccountVersions.contains v
+def validateVersion (v : Nat) : Bool := Pool.Gen.Batch.validAccountVersions.contains v
 
 /-- "Update account expiry if needed": `batch.Version.SupportsAccountExtension() && diff.NewExpiry != 0` -/
 def extendsExpiry (b : Batch) (d : Diff) : Bool := supportsAccountExtension b.version && d.newExpiry != 0
@@ -448,7 +449,7 @@ def verifyDiff (env : Env) (rules : Rules) (b : Batch) (best : UInt32) (st : Tal
     else if d.endingBalance != w64 (e.bal - estimateTraderFee e.chans b.feeRate e.acct.version) then .error .diffBalance
     -- uint64(diff.NewExpiry) > uint64(bestHeight) + uint64(account.MaxAccountExpiry)
     else if rules.boundNewExpiry && extendsExpiry b d &&
-        decide (d.newExpiry > best.toNat + Pool.Gen.maxAccountExpiry) then .error .diffNewExpiry
+        decide (d.newExpiry > best.toNat + Pool.Gen.Batch.maxAccountExpiry) then .error .diffNewExpiry
     else if rules.validateNewVersion && upgradesVersion b e.acct d && !validateVersion d.newVersion then
       .error .diffNewVersion
     else match validateEndingState env b.txOuts (acctAfter b e.acct d) d with
@@ -559,7 +560,7 @@ structure PrepareMsg where
 deriving Repr, DecidableEq
 
 /-- the channel-type switch of `ParseRPCServerOrder` -/
-def parseChanType (ct : Int) : Option Nat := Pool.Gen.rpcChanTypeTable.lookup ct
+def parseChanType (ct : Int) : Option Nat := Pool.Gen.Batch.rpcChanTypeTable.lookup ct
 
 def parseTheir (isAsk : Bool) (r : TheirRpc) : Except Err Their :=
   match parseChanType r.chanType with
@@ -620,6 +621,20 @@ def parseRPCBatch (m : PrepareMsg) : Except Err Batch :=
       id := m.id, version := m.version, heightHint := UInt32.ofNat m.heightHint, matched := matched,
       clearing := clearing, diffs := m.diffs.map parseDiff,
       execBase := w64 m.execBase, execRate := w64 m.execRate, feeRate := w64 m.feeRate, txOuts := m.txOuts }
+
+/-- Go iterates `prepareMsg.MatchedMarkets` (a map) in an unspecified order; when an order nonce occurs in two
+markets the later write to `b.MatchedOrders[nonce]` wins.  `ord` (market durations, as far as known) is the order of
+this run; markets not listed keep their position after the listed ones. -/
+def reorderMarkets (ord : List Nat) (ms : List MarketRpc) : List MarketRpc :=
+  (ord.filterMap fun d => ms.find? fun m => m.duration == d) ++ ms.filter fun m => !ord.contains m.duration
+
+/-- `FixedRatePremium(rate).LumpSumPremium(amt, dur)` by the exact binary64 model (`PoolModel/Float64.lean`) inside
+its domain (non-negative amount, uint32 rate/duration, result below 2^63); `fallback` elsewhere (Go's float→int
+conversion of such values is implementation specific). -/
+def floatPremium (fallback : Int → Nat → Nat → Int) (amt : Int) (rate dur : Nat) : Int :=
+  if decide (0 ≤ amt) && Pool.Float64.premiumInRange amt.toNat rate dur then
+    (Pool.Float64.premium amt.toNat rate dur : Int)
+  else fallback amt rate dur
 
 /-- Put the entries Go visited first (in that order) in front; the rest keeps its order. -/
 def reorder (visit : List Nonce) (matched : List (Nonce × List Their)) : List (Nonce × List Their) :=
